@@ -230,7 +230,16 @@ impl SwiftField for Field23E {
 
         // Parse instruction code (first 4 characters)
         let instruction_code = parse_exact_length(&input[0..4], 4, "Field 23E instruction code")?;
-        parse_uppercase(&instruction_code, "Field 23E instruction code")?;
+        // 4!c: upper-case letters and digits
+        if !instruction_code
+            .chars()
+            .all(|c| c.is_ascii_uppercase() || c.is_ascii_digit())
+        {
+            return Err(ParseError::InvalidFormat {
+                message: "Field 23E instruction code must be 4 upper-case letters or digits"
+                    .to_string(),
+            });
+        }
 
         // Check for optional additional information after slash
         let additional_info = if input.len() > 4 {
@@ -241,6 +250,11 @@ impl SwiftField for Field23E {
             }
 
             let info = &input[5..];
+            if info.is_empty() {
+                return Err(ParseError::InvalidFormat {
+                    message: "Field 23E additional information after '/' cannot be empty".to_string(),
+                });
+            }
             if info.len() > 35 {
                 return Err(ParseError::InvalidFormat {
                     message: format!(
